@@ -470,7 +470,9 @@ def run_real(src, table, cfg=None, extra=None, may_raise=False):
             record(exc)
     handler = record if len(src) % 2 else CollectingHandler()
     try:
-        t = PageTemplate(src, on_error_handler=handler, **cfg)
+        # one text in 8 reaches the engine through a module cache that has just stored a sibling configuration
+        from vlib import routes, state
+        t = routes.make(PageTemplate, src, 8, getattr(state, 'CTX', None), on_error_handler=handler, **cfg)
     except Exception as e:
         return {'out': None, 'log': log, 'exc': 'COMPILE %s: %s' % (type(e).__name__, str(e).split('\n')[0][:120]),
                 'handled': handled}
